@@ -34,10 +34,19 @@ Inductive pa :=
 | PDiv (a b : pa)                      (* a / b : Python's true division *)
 | PNeg (a : pa)                        (* -a *)
 | PFun (f : string) (a : pa).          (* one-argument math function, f the C++ name (std::sqrt ...) *)
-Record pred := { p_op : string; p_l : pa; p_r : pa }.
+(* a comparison, possibly negated: not (l op r) *)
+Record pred := { p_neg : bool; p_op : string; p_l : pa; p_r : pa }.
+(* the filter between a collection and what consumes its elements:
+     GNest [p1; ..; pk]   Where(p1)...Where(pk) as nested ifs (func_adl fuses chained Where calls, so k <= 1 in
+                          what the implementation emits; the theorems hold for every k)
+     GBool and? p ps      Where(p and p1 and .. ) / Where(p or p1 or ..): visit_BoolOp's lowering - a bool variable
+                          declared in the loop block, assigned the first operand, each further operand assigned inside
+                          an `if (v)` (and) / `if (!v)` (or), then `if (v)` around what follows *)
+Inductive guard := GNest (ps : list pred) | GBool (is_and : bool) (p : pred) (ps : list pred).
+Definition gsize (g : guard) : nat := match g with GNest _ => 0 | GBool _ _ _ => 1 end.
 (* the terminal over the filtered collection: Count() or Select(lambda x: body).Sum() *)
 Inductive aggk := ACount | ASum (body : pa).
-Record cnt := { k_coll : collref; k_preds : list pred; k_agg : aggk }.
+Record cnt := { k_coll : collref; k_guard : guard; k_agg : aggk }.
 
 (* static type of a predicate-level arithmetic expression: methods without declaration are double *)
 Fixpoint pa_type (a : pa) : string :=
@@ -98,11 +107,34 @@ Fixpoint tpa (iv : string) (arrow : bool) (a : pa) : cexp :=
   | PFun f x => CCall f (CCons (tpa iv arrow x) CNil)
   end.
 Definition tpred (iv : string) (arrow : bool) (p : pred) : cexp :=
-  CBin (p_op p) (tpa iv arrow (p_l p)) (tpa iv arrow (p_r p)).
+  let c := CBin (p_op p) (tpa iv arrow (p_l p)) (tpa iv arrow (p_r p)) in
+  if p_neg p then CUn "!" c else c.
+
+(* guards around several statements: the statements sit in the innermost if-block *)
+Fixpoint guards_block (conds : list cexp) (inner : stmts) : stmts :=
+  match conds with
+  | [] => inner
+  | c :: r => one_stmt (SIf c (Blk [] (guards_block r inner)) None)
+  end.
+Definition bo_name (n : nat) : string := nm "bool_op" (S (S n)).
+(* declarations a guard adds to the loop block, and the statements of the loop block *)
+Definition gdecls (g : guard) (n : nat) : list decl :=
+  match g with GNest _ => [] | GBool _ _ _ => [bo_decl (bo_name n)] end.
+Definition gstmts (iv : string) (arrow : bool) (g : guard) (n : nat) (inner : stmts) : stmts :=
+  match g with
+  | GNest ps => guards_block (map (tpred iv arrow) ps) inner
+  | GBool is_and p ps =>
+      app_stmts (bo_lower is_and (bo_name n) SNil (tpred iv arrow p)
+                          (map (fun q => bo_operand (bo_name n) [] SNil (tpred iv arrow q)) ps))
+                (one_stmt (SIf (CVar (bo_name n)) (Blk [] inner) None))
+  end.
+Definition loop_block (iv : string) (arrow : bool) (g : guard) (n : nat) (inner : stmts) : block :=
+  Blk (gdecls g n) (gstmts iv arrow g n inner).
 
 Definition cv_name (k : cnt) (n : nat) : string := nm (c_base (k_coll k)) n.
 Definition iv_name (n : nat) : string := nm "i_obj" (S n).
-Definition agg_name (n : nat) : string := nm "aggResult" (S (S n)).
+Definition agg_name (n : nat) : string := nm "aggResult" (S (S n)).   (* used at n + gsize of the guard *)
+Definition kagg (k : cnt) (n : nat) : string := agg_name (n + gsize (k_guard k)).
 
 Definition agg_summand (iv : string) (arrow : bool) (g : aggk) : cexp :=
   match g with ACount => CInt 1 | ASum body => tpa iv arrow body end.
@@ -110,11 +142,11 @@ Definition agg_update (agg : string) (summand : cexp) : stmt := SSet agg None (C
 
 Definition tcount_decls (k : cnt) (n : nat) : list decl :=
   [{| d_type := c_ctype (k_coll k); d_name := cv_name k n; d_init := None |};
-   {| d_type := agg_type k; d_name := agg_name n; d_init := Some (CInt 0) |}].
+   {| d_type := agg_type k; d_name := kagg k n; d_init := Some (CInt 0) |}].
 Definition tcount_loop (k : cnt) (n : nat) : stmt :=
   SFor (iv_name n) (CDeref (CVar (cv_name k n)))
-       (Blk [] (one_stmt (fi_guards (map (tpred (iv_name n) (c_arrow (k_coll k))) (k_preds k))
-                                    (agg_update (agg_name n) (agg_summand (iv_name n) (c_arrow (k_coll k)) (k_agg k)))))).
+       (loop_block (iv_name n) (c_arrow (k_coll k)) (k_guard k) n
+                   (one_stmt (agg_update (kagg k n) (agg_summand (iv_name n) (c_arrow (k_coll k)) (k_agg k))))).
 Definition tcount_stmts (idiom : string) (k : cnt) (n : nat) : stmts :=
   SCons (SFetch idiom (cv_name k n) (c_ctype (k_coll k)) (c_bank (k_coll k))
                 (fetch_lines idiom (c_ctype (k_coll k)) (c_bank (k_coll k))))
@@ -124,7 +156,7 @@ Definition tcount_stmts (idiom : string) (k : cnt) (n : nat) : stmts :=
 Fixpoint te (idiom : string) (e : ex) (n : nat) : list decl * stmts * cexp * nat :=
   match e with
   | EInt z => ([], SNil, CInt z, n)
-  | ECount k => (tcount_decls k n, tcount_stmts idiom k n, CVar (agg_name n), S (S (S n)))
+  | ECount k => (tcount_decls k n, tcount_stmts idiom k n, CVar (kagg k n), S (S (S n)) + gsize (k_guard k))
   | EBin o a b =>
       let '(da, sa, ca, n1) := te idiom a n in
       let '(db, sb, cb, n2) := te idiom b n1 in
@@ -153,15 +185,16 @@ Definition prog (bk : backend) (e : ex) (n0 : nat) : program :=
 (* ---------- rows: several columns, scalar or vector ---------- *)
 Inductive column :=
 | ColScalar (e : ex)                                           (* an event-level value *)
-| ColVec (c : collref) (ps : list pred) (body : pa)            (* e.Coll("bank")[.Where(p)].Select(lambda x: body) *)
-| ColFirst (c : collref) (ps : list pred) (body : pa) (line : string).
+| ColVec (c : collref) (g : guard) (body : pa)                 (* e.Coll("bank")[.Where(p)].Select(lambda x: body) *)
+| ColFirst (c : collref) (g : guard) (body : pa) (line : string).
     (* e.Coll("bank")[.Where(p)].Select(lambda x: body).First()  (or ....First().m()): the first passing element's
        value; `line` is the emitted throw statement (its message quotes the query text) *)
 Definition row := list (string * column).                      (* branch name, column *)
 
 Fixpoint ex_size (e : ex) : nat :=
-  match e with EInt _ => 0 | ECount _ => 3 | EBin _ a b => ex_size a + ex_size b end.
-Definition col_size (c : column) : nat := match c with ColScalar e => ex_size e | ColVec _ _ _ => 2 | ColFirst _ _ _ _ => 3 end.
+  match e with EInt _ => 0 | ECount k => 3 + gsize (k_guard k) | EBin _ a b => ex_size a + ex_size b end.
+Definition col_size (c : column) : nat :=
+  match c with ColScalar e => ex_size e | ColVec _ g _ => 2 + gsize g | ColFirst _ g _ _ => 3 + gsize g end.
 Fixpoint row_size (r : row) : nat := match r with [] => 0 | (_, c) :: t => col_size c + row_size t end.
 
 Definition vec_type (ty : string) : string := "std::vector<" +++ ty +++ ">".
@@ -172,34 +205,33 @@ Definition col_type (c : column) : string :=
 Definition mem_name (name : string) (idx : nat) : string := nm ("_" +++ name) idx.
 
 Definition vcv_name (c : collref) (n : nat) : string := nm (c_base c) n.
-Definition tvec_loop (c : collref) (ps : list pred) (body : pa) (mem : string) (n : nat) : stmt :=
+Definition tvec_loop (c : collref) (g : guard) (body : pa) (mem : string) (n : nat) : stmt :=
   SFor (iv_name n) (CDeref (CVar (vcv_name c n)))
-       (Blk [] (one_stmt (fi_guards (map (tpred (iv_name n) (c_arrow c)) ps)
-                                    (SPush mem None (tpa (iv_name n) (c_arrow c) body))))).
+       (loop_block (iv_name n) (c_arrow c) g n (one_stmt (SPush mem None (tpa (iv_name n) (c_arrow c) body)))).
 
 (* call_First: flag declared in the block enclosing the loop, capture under the guards, throw-if after the loop;
    the column member is assigned inside the capture *)
-Definition isf_name (n : nat) : string := nm "is_first" (S (S n)).
-Definition tfirst_capture (c : collref) (body : pa) (mem : string) (n : nat) : stmt :=
-  fi_capture (isf_name n) [] (one_stmt (SSet mem None (tpa (iv_name n) (c_arrow c) body))).
-Definition tfirst_loop (c : collref) (ps : list pred) (body : pa) (mem : string) (n : nat) : stmt :=
+Definition isf_name (n : nat) : string := nm "is_first" (S (S n)).   (* used at n + gsize of the guard *)
+Definition tfirst_capture (c : collref) (g : guard) (body : pa) (mem : string) (n : nat) : stmt :=
+  fi_capture (isf_name (n + gsize g)) [] (one_stmt (SSet mem None (tpa (iv_name n) (c_arrow c) body))).
+Definition tfirst_loop (c : collref) (g : guard) (body : pa) (mem : string) (n : nat) : stmt :=
   SFor (iv_name n) (CDeref (CVar (vcv_name c n)))
-       (Blk [] (one_stmt (fi_guards (map (tpred (iv_name n) (c_arrow c)) ps) (tfirst_capture c body mem n)))).
+       (loop_block (iv_name n) (c_arrow c) g n (one_stmt (tfirst_capture c g body mem n))).
 
 (* code of one column in the event block: declarations, statements, next index *)
 Definition tcol (idiom : string) (c : column) (mem : string) (n : nat) : list decl * stmts * nat :=
   match c with
   | ColScalar e => let '(ds, ss, _, n') := te idiom e n in (ds, ss, n')
-  | ColVec cr ps body =>
+  | ColVec cr g body =>
       ([{| d_type := c_ctype cr; d_name := vcv_name cr n; d_init := None |}],
        SCons (SFetch idiom (vcv_name cr n) (c_ctype cr) (c_bank cr) (fetch_lines idiom (c_ctype cr) (c_bank cr)))
-             (one_stmt (tvec_loop cr ps body mem n)),
-       S (S n))
-  | ColFirst cr ps body line =>
-      ([{| d_type := c_ctype cr; d_name := vcv_name cr n; d_init := None |}; fi_decl (isf_name n)],
+             (one_stmt (tvec_loop cr g body mem n)),
+       S (S n) + gsize g)
+  | ColFirst cr g body line =>
+      ([{| d_type := c_ctype cr; d_name := vcv_name cr n; d_init := None |}; fi_decl (isf_name (n + gsize g))],
        SCons (SFetch idiom (vcv_name cr n) (c_ctype cr) (c_bank cr) (fetch_lines idiom (c_ctype cr) (c_bank cr)))
-             (SCons (tfirst_loop cr ps body mem n) (one_stmt (fi_throw (isf_name n) line))),
-       S (S (S n)))
+             (SCons (tfirst_loop cr g body mem n) (one_stmt (fi_throw (isf_name (n + gsize g)) line))),
+       S (S (S n)) + gsize g)
   end.
 
 (* all columns in order; member k is mem_name name_k (nf + k) *)
@@ -218,8 +250,8 @@ Fixpoint trow_sets (idiom : string) (r : row) (nf k n : nat) : stmts :=
   | (name, c) :: t =>
       match c with
       | ColScalar e => let '(_, _, ce, n') := te idiom e n in SCons (SSet (mem_name name (nf + k)) None ce) (trow_sets idiom t nf (S k) n')
-      | ColVec _ _ _ => trow_sets idiom t nf (S k) (S (S n))
-      | ColFirst _ _ _ _ => trow_sets idiom t nf (S k) (S (S (S n)))
+      | ColVec _ g _ => trow_sets idiom t nf (S k) (S (S n) + gsize g)
+      | ColFirst _ g _ _ => trow_sets idiom t nf (S k) (S (S (S n)) + gsize g)
       end
   end.
 Fixpoint trow_clears (r : row) (nf k : nat) : stmts :=
@@ -258,29 +290,42 @@ Fixpoint dpa (ev : event) (v : value) (a : pa) : res value :=
   | PNeg x => rdo p <- dpa ev v x; unary "-" p
   | PFun f x => rdo p <- dpa ev v x; ROk (VSym f [math_arg p])
   end.
-Definition dpred (ev : event) (v : value) (p : pred) : res bool :=
-  rdo x <- dpa ev v (p_l p); rdo y <- dpa ev v (p_r p); rdo r <- arith (p_op p) x y; truth r.
+Definition dpredv (ev : event) (v : value) (p : pred) : res value :=
+  rdo x <- dpa ev v (p_l p); rdo y <- dpa ev v (p_r p); rdo r <- arith (p_op p) x y;
+  if p_neg p then unary "!" r else ROk r.
+Definition dpred (ev : event) (v : value) (p : pred) : res bool := rdo r <- dpredv ev v p; truth r.
 (* Where(p1).Where(p2)...: the predicates are applied to each element in turn, left to right *)
 Fixpoint passes (ev : event) (v : value) (ps : list pred) : res bool :=
   match ps with
   | [] => ROk true
   | p :: r => rdo b <- dpred ev v p; if b then passes ev v r else ROk false
   end.
+(* and / or are lazy: operands left to right, the rest is not evaluated once the result is known *)
+Fixpoint bo_rest (ev : event) (v : value) (is_and : bool) (b : bool) (ps : list pred) : res bool :=
+  match ps with
+  | [] => ROk b
+  | p :: r => if Bool.eqb b is_and then rdo b' <- dpred ev v p; bo_rest ev v is_and b' r else ROk b
+  end.
+Definition gpasses (ev : event) (v : value) (g : guard) : res bool :=
+  match g with
+  | GNest ps => passes ev v ps
+  | GBool is_and p ps => rdo b <- dpred ev v p; bo_rest ev v is_and b ps
+  end.
 (* one step of the aggregate on a passing element: acc + 1, or acc + body(v), stored in the accumulator's type *)
 Definition agg_step (ev : event) (ty : string) (g : aggk) (acc v : value) : res value :=
   rdo x <- match g with ACount => ROk (VInt 1) | ASum body => dpa ev v body end;
   rdo s <- arith "+" acc x;
   ROk (conv ty s).
-Fixpoint agg_loop (ev : event) (ty : string) (g : aggk) (ps : list pred) (l : list value) (acc : value) : res value :=
+Fixpoint agg_loop (ev : event) (ty : string) (g : aggk) (ps : guard) (l : list value) (acc : value) : res value :=
   match l with
   | [] => ROk acc
-  | v :: r => rdo b <- passes ev v ps;
+  | v :: r => rdo b <- gpasses ev v ps;
               if b then rdo acc' <- agg_step ev ty g acc v; agg_loop ev ty g ps r acc' else agg_loop ev ty g ps r acc
   end.
 Definition dcount (ev : event) (k : cnt) : res value :=
   match assoc_ss (c_ctype (k_coll k), c_bank (k_coll k)) (ev_colls ev) with
   | None => RFault FRetrieve
-  | Some (VVec l) => agg_loop ev (agg_type k) (k_agg k) (k_preds k) l (conv (agg_type k) (VInt 0))
+  | Some (VVec l) => agg_loop ev (agg_type k) (k_agg k) (k_guard k) l (conv (agg_type k) (VInt 0))
   | Some VNull => RFault FNullDeref
   | Some _ => RStuck (KType "the bank does not hold a collection")
   end.
@@ -292,18 +337,18 @@ Fixpoint de (ev : event) (e : ex) : res value :=
   end.
 
 (* a vector column: the values of the body on the passing elements, in order, stored with the element type *)
-Fixpoint vec_loop (ev : event) (ty : string) (body : pa) (ps : list pred) (l : list value) (acc : list value) : res (list value) :=
+Fixpoint vec_loop (ev : event) (ty : string) (body : pa) (ps : guard) (l : list value) (acc : list value) : res (list value) :=
   match l with
   | [] => ROk acc
-  | v :: r => rdo b <- passes ev v ps;
+  | v :: r => rdo b <- gpasses ev v ps;
               if b then rdo x <- dpa ev v body; vec_loop ev ty body ps r (acc ++ [conv ty x]) else vec_loop ev ty body ps r acc
   end.
 (* First: the predicates are applied to every element (the loop runs to the end), the body only to the first
    passing one *)
-Fixpoint first_loop (ev : event) (ty : string) (body : pa) (ps : list pred) (l : list value) (found : option value) : res (option value) :=
+Fixpoint first_loop (ev : event) (ty : string) (body : pa) (ps : guard) (l : list value) (found : option value) : res (option value) :=
   match l with
   | [] => ROk found
-  | v :: r => rdo b <- passes ev v ps;
+  | v :: r => rdo b <- gpasses ev v ps;
               if b then match found with
                         | Some _ => first_loop ev ty body ps r found
                         | None => rdo x <- dpa ev v body; first_loop ev ty body ps r (Some (conv ty x))
@@ -336,8 +381,8 @@ Fixpoint drow (ev : event) (r : row) : res (list value) :=
   end.
 
 (* when nothing faults, the streaming count is the length of the filtered list *)
-Definition passes_total (ev : event) (ps : list pred) (l : list value) (f : value -> bool) : Prop :=
-  forall v, In v l -> passes ev v ps = ROk (f v).
+Definition passes_total (ev : event) (ps : guard) (l : list value) (f : value -> bool) : Prop :=
+  forall v, In v l -> gpasses ev v ps = ROk (f v).
 
 (* ---------- wire format ---------- *)
 Fixpoint d_pa_fuel (fuel : nat) (s : sexp) : option pa :=
@@ -362,18 +407,27 @@ Definition d_pa (s : sexp) : option pa := d_pa_fuel (S (sexp_depth s)) s.
 Definition d_pred (s : sexp) : option pred :=
   match s with
   | SList [SAtom op; l; r] =>
-      match d_pa l, d_pa r with Some l', Some r' => Some {| p_op := op; p_l := l'; p_r := r' |} | _, _ => None end
+      match d_pa l, d_pa r with Some l', Some r' => Some {| p_neg := false; p_op := op; p_l := l'; p_r := r' |} | _, _ => None end
+  | SList [SAtom "not"; SAtom op; l; r] =>
+      match d_pa l, d_pa r with Some l', Some r' => Some {| p_neg := true; p_op := op; p_l := l'; p_r := r' |} | _, _ => None end
   | _ => None
+  end.
+(* a guard on the wire: a plain list of predicates (nested Where), or (and p1 p2 ..) / (or p1 p2 ..) *)
+Definition d_guard (ps : list sexp) : option guard :=
+  match ps with
+  | SAtom "and" :: p :: r => match d_pred p, d_list d_pred r with Some p', Some r' => Some (GBool true p' r') | _, _ => None end
+  | SAtom "or" :: p :: r => match d_pred p, d_list d_pred r with Some p', Some r' => Some (GBool false p' r') | _, _ => None end
+  | _ => option_map GNest (d_list d_pred ps)
   end.
 Definition d_cnt (s : sexp) : option cnt :=
   match s with
   | SList [SAtom base; SAtom ct; SAtom bank; ar; SList ps; g] =>
-      match d_bool ar, d_list d_pred ps, (match g with
+      match d_bool ar, d_guard ps, (match g with
                                           | SList [SAtom "count"] => Some ACount
                                           | SList [SAtom "sum"; b] => option_map ASum (d_pa b)
                                           | _ => None end) with
       | Some ar', Some ps', Some g' =>
-          Some {| k_coll := {| c_base := base; c_ctype := ct; c_bank := bank; c_arrow := ar' |}; k_preds := ps'; k_agg := g' |}
+          Some {| k_coll := {| c_base := base; c_ctype := ct; c_bank := bank; c_arrow := ar' |}; k_guard := ps'; k_agg := g' |}
       | _, _, _ => None
       end
   | _ => None
@@ -397,13 +451,13 @@ Definition d_col (s : sexp) : option (string * column) :=
   match s with
   | SList [SAtom name; SList [SAtom "scalar"; e]] => option_map (fun e' => (name, ColScalar e')) (d_ex e)
   | SList [SAtom name; SList [SAtom "vec"; SAtom base; SAtom ct; SAtom bank; ar; SList ps; b]] =>
-      match d_bool ar, d_list d_pred ps, d_pa b with
+      match d_bool ar, d_guard ps, d_pa b with
       | Some ar', Some ps', Some b' =>
           Some (name, ColVec {| c_base := base; c_ctype := ct; c_bank := bank; c_arrow := ar' |} ps' b')
       | _, _, _ => None
       end
   | SList [SAtom name; SList [SAtom "first"; SAtom base; SAtom ct; SAtom bank; ar; SList ps; b; SAtom line]] =>
-      match d_bool ar, d_list d_pred ps, d_pa b with
+      match d_bool ar, d_guard ps, d_pa b with
       | Some ar', Some ps', Some b' =>
           Some (name, ColFirst {| c_base := base; c_ctype := ct; c_bank := bank; c_arrow := ar' |} ps' b' line)
       | _, _, _ => None
